@@ -607,6 +607,16 @@ def payload_cases(tmpdir):
                 return pl.TextIOPayload(fh)
             yield f"textfile@{off}/{n}", tfil
 
+            def tfil_latin1(off=off, n=n):
+                # a text file in an encoding other than UTF-8: what goes on the wire is re-encoded text
+                p = os.path.join(tmpdir, f"l{n}")
+                with open(p, "w", encoding="latin-1") as f:
+                    f.write("é" * n)
+                fh = open(p, "r", encoding="latin-1")
+                fh.read(off)
+                return pl.TextIOPayload(fh)
+            yield f"textfile-latin1@{off}/{n}", tfil_latin1
+
 
 def multipart_cases():
     parts = {
